@@ -303,6 +303,67 @@ func walk(r *simkit.Run, prop string) {
 		_, err := refCatalog(dir, s)
 		return err
 	}
+	// A run may start from a database somebody else created: inline UNIQUE constraints, upper-case
+	// type names. Those catalogs are ones Atlas' own planner never writes.
+	if t.Chance("legacy-start", 1, 3) {
+		legacy := &Sch{}
+		for i, n := 0, t.Range("legacy-tables", 1, 2); i < n; i++ {
+			tb := g.NewTable(legacy)
+			for _, ix := range tb.Idx {
+				plain := ix.Unique && ix.Where == ""
+				var cols []string
+				for _, p := range ix.Parts {
+					if p.Expr != "" || p.Desc {
+						plain = false
+					}
+					cols = append(cols, p.Col)
+				}
+				if plain && t.Chance("inline-unique", 2, 3) {
+					ix.Inline = true
+					ix.Name = tb.Name + "_" + strings.Join(cols, "_")
+				}
+			}
+			// Two constraints over the same columns would share the normalised name.
+			seen := map[string]bool{}
+			var keep []*Idx
+			for _, ix := range tb.Idx {
+				if ix.Inline && seen[ix.Name] {
+					continue
+				}
+				seen[ix.Name] = true
+				keep = append(keep, ix)
+			}
+			tb.Idx = keep
+			legacy.Tables = append(legacy.Tables, tb)
+		}
+		if valid(legacy) == nil {
+			ok := true
+			for _, st := range legacy.DDL() {
+				if t.Chance("upper-case-ddl", 1, 2) {
+					st = upperTypes(st)
+				}
+				if _, err := obs.Exec(st); err != nil {
+					ok = false
+					break
+				}
+			}
+			if ok {
+				desired = legacy
+				r.Probe("legacy-start")
+				for _, tb := range legacy.Tables {
+					for _, ix := range tb.Idx {
+						if ix.Inline {
+							r.Probe("legacy-inline-unique-constraint")
+							// From now on the model describes what is wanted, not how the legacy DDL wrote it.
+							ix.Inline = false
+						}
+					}
+				}
+				r.Logf("legacy start: %s", legacy.Describe())
+				r.Sample("start from a database created by foreign DDL: %s", legacy.Describe())
+			}
+		}
+	}
 	for step := 1; step <= steps && !r.Failed(); step++ {
 		r.Step()
 		// Next desired state: 1-3 elementary edits of the previous one (each kept only if the
@@ -470,6 +531,9 @@ func walk(r *simkit.Run, prop string) {
 							if strings.Contains(aerr.Error(), "table `new_") && strings.Contains(aerr.Error(), "already exists") {
 								sig = "temp-table-name-collision"
 							}
+							if strings.Contains(aerr.Error(), "no such index") {
+								sig = "drop-of-constraint-backed-index"
+							}
 							r.Fail(prop, "plan-executable", sig, "step %d: the planned statements fail even with all rows removed: %v (first error: %v); changes [%s]; plan:\n%s", step, e2, aerr, changeKinds(changes), planText(plan))
 						} else {
 							r.Probe("natural-failure-is-data-dependent")
@@ -559,7 +623,7 @@ func liveModel(desired *Sch, obs *sql.DB) *Sch {
 			tb.Cols = append(tb.Cols, col)
 		}
 		cs.Close()
-		fs, err := obs.Query("SELECT \"from\" FROM pragma_foreign_key_list(?)", n)
+		fs, err := obs.Query("SELECT \"from\" FROM pragma_foreign_key_list(?) WHERE seq = 0", n)
 		if err == nil {
 			for fs.Next() {
 				var c string
@@ -930,7 +994,7 @@ func checkReverse(ctx context.Context, r *simkit.Run, w *world, obs *sql.DB, pla
 	if err != nil {
 		simkit.Harnessf("catalog: %v", err)
 	}
-	if d := DiffCatalogs(cat, beforeCat); d != "" {
+	if d := DiffCatalogsRelaxed(cat, beforeCat, nil); d != "" {
 		r.Fail(prop, "down", "down-catalog-differs", "step %d: after up then down the catalog differs from the starting catalog:\n%s", step, d)
 		return
 	}
@@ -960,4 +1024,12 @@ func stripComments(s string) string {
 		out = append(out, l)
 	}
 	return strings.Join(out, "\n")
+}
+
+// upperTypes writes the type keywords of a CREATE TABLE statement in upper case.
+func upperTypes(st string) string {
+	for _, ty := range []string{"integer", "text", "real", "blob", "varchar", "boolean", "datetime", "bigint", "numeric"} {
+		st = strings.ReplaceAll(st, " "+ty, " "+strings.ToUpper(ty))
+	}
+	return st
 }
